@@ -444,6 +444,10 @@ func verifyRRSIGWithWork(
 	}
 
 	rrsets := make(map[rrsetKey][]dns.RR)
+	// denialRRsets marks the NSEC / NSEC3 RRsets taken from the authority
+	// section: records that are evidence about the name space through
+	// their owner name (see expandedFromWildcard).
+	denialRRsets := make(map[rrsetKey]bool)
 	// Every record in the validation pass must belong to the signer
 	// zone (apart from the narrow synthesised-CNAME exception RFC
 	// 6672 §5.3.1 allows when an in-zone DNAME signs the synthesis).
@@ -496,6 +500,9 @@ func verifyRRSIGWithWork(
 			}
 			k := rrsetKey{name: name, rtype: rtype, class: r.Header().Class}
 			rrsets[k] = append(rrsets[k], r)
+			if fromAuthority && (rtype == dns.TypeNSEC || rtype == dns.TypeNSEC3) {
+				denialRRsets[k] = true
+			}
 		}
 	}
 	collect(msg.Answer, false)
@@ -562,6 +569,11 @@ func verifyRRSIGWithWork(
 		verified := false
 		var rrsetUsed uint32
 		for _, sig := range sigList {
+			if denialRRsets[key] && expandedFromWildcard(sig, set[0].Header().Name) {
+				// Not a signature over this owner name: see expandedFromWildcard.
+				lastErr = ErrMissingSigned
+				continue
+			}
 			if err := verifyOneSigWithWork(keys, set, sig, work, &rrsetUsed); err != nil {
 				if IsWorkError(err) {
 					return false, err
@@ -774,6 +786,29 @@ func usableSignatureCandidate(sig *dns.RRSIG, key *dns.DNSKEY) bool {
 		strings.EqualFold(key.Header().Name, sig.SignerName) &&
 		key.Protocol == 3 &&
 		key.Flags&dns.ZONE != 0
+}
+
+// expandedFromWildcard reports whether sig signs owner only as an expansion
+// of a wildcard: its Labels field is smaller than owner's label count (a
+// leading "*" label is not counted, RFC 4034 section 3.1.3), so the signed
+// data is "*.<the last Labels labels of owner>" and the same signature
+// verifies under every name below that closest encloser.
+//
+// For answer data that is how wildcard synthesis works, and the caller must
+// additionally prove that no closer match exists (VerifyWildcardAnswer). An
+// NSEC or NSEC3 record in the authority section is different: it is evidence
+// about the name space through its owner name - what exists at the owner,
+// which interval follows it - and an authority never re-owns one. Accepting
+// an expanded signature there lets the zone's genuine wildcard NSEC and its
+// RRSIG be presented under any other name below the wildcard's parent: a
+// NODATA "proof" for types that exist at that name, or a covering interval
+// that denies existing names (the Unbound CVE-2017-15105 class).
+func expandedFromWildcard(sig *dns.RRSIG, owner string) bool {
+	labels := dns.CountLabel(owner)
+	if strings.HasPrefix(owner, "*.") {
+		labels--
+	}
+	return int(sig.Labels) < labels
 }
 
 func signatureMatchesRRset(sig *dns.RRSIG, set []dns.RR) bool {
